@@ -19,7 +19,10 @@ put into a bundle because the model defines these operations exactly where the p
 back as the stored token (`Bundle.readsBack`; `minted_tokens_are_synced`).  In Go the two cannot
 differ (a resource set is a map; the encoder sorts); a model value can be non-canonical (an unsorted
 resource-set list), and then the operation fails closed — `unsorted_resource_set_does_not_read_back`
-is the witness why this is needed.  The headline theorems therefore carry NO hypothesis about
+is the witness why this is needed.  The guard is exactly well-formedness (`Props/C13.lean:
+readsBack_iff_wellformed`), well-formedness is an invariant of every history (`wf_along_histories`),
+and on well-formed tokens with well-formed arguments the guard never fires
+(`guard_never_the_reason`).  The headline theorems therefore carry NO hypothesis about
 minting; the generic form `cache_transparent_from` (any decoder `μ`) keeps `MintSynced μ`, which
 `minted_tokens_are_synced` discharges for `μ = macOf`.
 
@@ -40,6 +43,7 @@ driver runs the object-level model and, for `.copy`, also `Cache.Sys`, reporting
 -/
 import Macaroon.Lemmas.Bundle
 import Macaroon.Lemmas.Refine
+import Macaroon.Lemmas.ReadsBack
 
 namespace Macaroon.Props.C14
 open Macaroon Macaroon.Bundle Macaroon.Bundle.Cache Macaroon.Lemmas.BundleL
@@ -159,6 +163,40 @@ theorem unsorted_items_break_value_transparency :
     (∀ bytes, (Concrete.encode unsortedTok).2 = some bytes → readsBack bytes unsortedTok = false ∧ readsBack bytes sortedTok = true) ∧
     (∀ (μ : Str → Option M) (s : Str), ¬ (Synced μ (.unverified s unsortedTok) ∧ Synced μ (.unverified s sortedTok))) :=
   unsorted_resource_set_does_not_read_back
+
+open Macaroon.Lemmas.ReadsBack in
+/-- **wf_along_histories.**  `WFS s`: every macaroon token of every bundle of the system is well formed
+(`wfMac`, decidable).  It holds of the parsed initial state if the parsed tokens are well formed (all
+are, except the two kinds of `Props/C13.lean: parsed_token_cases`, on which `Attenuate` fails before the
+guard), and EVERY step of a history keeps it, whatever its arguments and whether it succeeds. -/
+theorem wf_along_histories (P : Params) :
+    (∀ pl hdrs, (∀ hdr ∈ hdrs, ∀ t ∈ parseToks hdr, ∀ m, t.mac? = some m → wfMac m = true) → WFS (init pl hdrs)) ∧
+    (∀ now s op, WFS s → WFS (step P now s op).1) :=
+  ⟨fun pl hdrs h => wf_init pl hdrs h, fun now s op h => wf_step P now s op h⟩
+
+open Macaroon.Lemmas.ReadsBack in
+/-- **guard_never_the_reason.**  In a well-formed system an `attenuate` step with well-formed arguments
+returns no error whenever `Add` succeeds within the size limits on every permission token of the
+bundle, and a `discharge` step returns no error whenever every ticket in scope opens, the callback
+answers with well-formed caveats and `Add` succeeds within the size limits: the `readsBack` guard of
+the model is never what makes an operation fail. -/
+theorem guard_never_the_reason (P : Params) (now : Int) (s : Sys) (hs : WFS s) (i : Nat) :
+    (∀ items, (∀ it ∈ items, itemOk it = true) →
+      (∀ t ∈ (s.get i).ts, isPermAt (s.get i).permLoc t = true → ∀ m, t.mac? = some m → AttOk items m) →
+      (step P now s (.attenuate i items)).2 = .flag false) ∧
+    (∀ loc ka cb rnds,
+      (∀ tr ∈ Bundle.withRnd (Bundle.ticketsInScope P.scope (s.get i).permLoc (s.get i).ts loc) rnds, DisOk loc ka cb tr.1 tr.2) →
+      (step P now s (.discharge i loc ka cb rnds)).2 = .flag false) := by
+  constructor
+  · intro items hi h
+    have := Lemmas.ReadsBack.attenuate_defined_of_wellformed (s.get i) items hi
+      (fun t ht hp m hm => ⟨wfs_get hs i t ht m hm, h t ht hp m hm⟩)
+    show Out.flag ((s.get i).attenuate items).2 = .flag false
+    rw [this]
+  · intro loc ka cb rnds h
+    have := Lemmas.ReadsBack.discharge_defined_of_wellformed P.scope (s.get i) loc ka cb rnds h
+    show Out.flag (Bundle.dischargeWith P.scope (s.get i) loc ka cb rnds).2 = .flag false
+    rw [this]
 
 /-- **hit_conditions.**  A cached acceptance is used only if an entry with exactly that key is
 present and `now < expiry`; and (key injectivity) only for the identical permission text presented
@@ -407,6 +445,8 @@ end Macaroon.Props.C14
 #print axioms Macaroon.Props.C14.minted_tokens_are_synced
 #print axioms Macaroon.Props.C14.attenuation_reads_back
 #print axioms Macaroon.Props.C14.unsorted_items_break_value_transparency
+#print axioms Macaroon.Props.C14.wf_along_histories
+#print axioms Macaroon.Props.C14.guard_never_the_reason
 #print axioms Macaroon.Props.C14.hit_conditions
 #print axioms Macaroon.Props.C14.expired_entry_not_used
 #print axioms Macaroon.Props.C14.hit_does_not_extend_life
